@@ -397,8 +397,8 @@ func (d Driver) Run(c *core.Ctx) error {
 		{Module: "GState", Config: genCfg("rand", 3, c.Pick(500, 20000), false), Seed: c.Seed},
 		{Module: "GState", Config: genCfg("rand", 4, c.Pick(250, 12000), false), Seed: c.Seed + 1},
 		// programs with the painter's-order frame (all four renderers are tied to these)
-		{Module: "Raster", Config: genCfg("rand", 2, c.Pick(120, 3000), true), Seed: c.Seed + 2},
-		{Module: "Raster", Config: genCfg("rand", 3, c.Pick(80, 3000), true), Seed: c.Seed + 3},
+		{Module: "Raster", Config: genCfg("randf", 2, c.Pick(120, 3000), true), Seed: c.Seed + 2},
+		{Module: "Raster", Config: genCfg("randf", 3, c.Pick(80, 3000), true), Seed: c.Seed + 3},
 	}
 	if c.Thorough() {
 		gens = append(gens, tlc.Opts{Module: "GState", Config: genCfg("sub2big", 0, 0, false)})
@@ -444,7 +444,7 @@ func (d Driver) Run(c *core.Ctx) error {
 	c.Count(0, nontrivial, 0)
 	c.SetExtra("programs", len(progs))
 	c.SetExtra("field_value_pairs_covered", len(pairs))
-	c.SetExtra("field_value_pairs_possible", 5*5+4*4+2*2+3*3+6*6+3*3+3*3+2*2+6*6+2*2)
+	c.SetExtra("field_value_pairs_possible", 5*5+4*4+2*2+3*3+6*6+3*3+3*3+2*2+8*8+2*2)
 	for i := 0; i < len(progs) && i < 3; i++ {
 		c.Sample(map[string]any{"program": progs[i*len(progs)/3].Prog, "requested_paints": progs[i*len(progs)/3].Paints})
 	}
